@@ -110,6 +110,24 @@ def VK.addressLike : VK → Bool
   | .ptr | .slice | .func | .iface | .chan | .map | .rawPtr => true
   | _ => false
 
+/-- Layout of a Go type (for the execution semantics, `EdVerif/Ssa/Sem.lean`): types are entries of
+    `Program.types`, referred to by index; component types have smaller indices; index `0` is
+    `unsupported` ("no type").  A `struct` entry also stands for the tuple of results of a call. -/
+inductive Ty
+  | int (bits : Nat) (signed : Bool)
+  | bool
+  | ptr (elem : Nat)
+  | slice (elem : Nat)
+  | func
+  | iface
+  | str
+  /-- `sync.Once` -/
+  | once
+  | arr (n : Nat) (elem : Nat)
+  | struct (fields : List Nat)
+  | unsupported
+deriving DecidableEq, Repr, Inhabited
+
 /-- Operand of an instruction. -/
 inductive Opnd
   /-- the value defined by instruction `id` of the same function -/
@@ -202,6 +220,10 @@ structure Instr where
   /-- source line (of this instruction, else of the nearest preceding one that has a position) -/
   line : Nat
   op : Op
+  /-- type of the defined value (index into `Program.types`; `0` if the instruction is not a value) -/
+  ty : Nat
+  /-- types of the operands, in the order of `Op.operands` -/
+  opTys : List Nat
 deriving Repr, Inhabited
 
 structure Block where
@@ -215,6 +237,8 @@ structure Param where
   /-- Go type, printed relative to the package (`*Point`, `[]*Point`, `*field.Element`, `int`) -/
   ty : Nm
   k : VK
+  /-- index into `Program.types` -/
+  tyId : Nat
 deriving Repr, Inhabited
 
 structure Func where
@@ -239,6 +263,8 @@ structure Func where
   synthetic : Nm
   file : Nm
   line : Nat
+  /-- types of the results (indices into `Program.types`) -/
+  resultTys : List Nat
   blocks : List Block
 deriving Repr, Inhabited
 
@@ -251,11 +277,15 @@ structure Global where
   ty : Nm
   /-- kind of the variable's content -/
   k : VK
+  /-- type of the variable's content (index into `Program.types`) -/
+  tyId : Nat
 deriving Repr, Inhabited
 
 structure Program where
   funcs : List Func
   globals : List Global
+  /-- layouts of the Go types that occur (see `Ty`) -/
+  types : Array Ty
   /-- import paths of the non-test files of the two packages -/
   imports : List Nm
   /-- named types of other packages that occur in the two packages -/
